@@ -295,9 +295,14 @@ Fixpoint route_all (retries : nat) (cur : Z) (ps : list pass) : routed :=
 Definition is_syn (m : pmsg) : bool := Z.land (pm_flags m) 1 =? 1.
 Definition is_fin (m : pmsg) : bool := Z.land (pm_flags m) 2 =? 2.
 
-(* 0: syn, consumed | 1: bounced to the retry path (needsRetry: closing or currentRetries[topic][partition] set) | 2: goes on to buffer.add *)
-Definition recv_decision (flags : Z) (closing retrying : bool) : Z :=
-  if Z.land flags 1 =? 1 then 0 else if closing || retrying then 1 else 2.
+(* 0: syn, consumed | 1: bounced to the retry path (needsRetry: closing or currentRetries[topic][partition] set) | 2: goes on to buffer.add.
+   [fx]: the tree has /verif/fixes/c04_fin_not_buffered.patch = /repo commit 1a6c550 (a fin that passes needsRetry is
+   bounced as well); fx = false is the code before that commit, kept for the refuted statement and its witness.
+   FIN_FIX says which tree the correspondence compares with. *)
+Definition recv_decision (fx : bool) (flags : Z) (closing retrying : bool) : Z :=
+  if Z.land flags 1 =? 1 then 0 else if closing || retrying then 1
+  else if fx && (Z.land flags 2 =? 2) then 1 else 2.
+Definition FIN_FIX := true.
 
 Record bpst := mkBp {
   bs_set : pset;                 (* bp.buffer *)
@@ -316,12 +321,12 @@ Inductive bp_event :=
 | BDrop (k : tpk)                       (* handleSuccess, retriable block: currentRetries set, buffer.dropPartition *)
 | BClosing.                             (* handleError: closing set (the buffer is then rolled over) *)
 
-Definition bp_step (c : pcfg) (st : bpst) (e : bp_event) : bpst :=
+Definition bp_step (fx : bool) (c : pcfg) (st : bpst) (e : bp_event) : bpst :=
   match e with
   | BRecv k m =>
-      match recv_decision (pm_flags m) (bs_closing st) (retrying st k) with
+      match recv_decision fx (pm_flags m) (bs_closing st) (retrying st k) with
       | 0 => mkBp (bs_set st) (bs_closing st) (clear_retrying k (bs_retrying st))
-      | 1 => if negb (bs_closing st) && is_fin m
+      | 1 => if negb (bs_closing st) && is_fin m && retrying st k
              then mkBp (bs_set st) (bs_closing st) (clear_retrying k (bs_retrying st)) else st
       | _ => mkBp (fst (ps_add c (bs_set st) k m)) (bs_closing st) (bs_retrying st)
       end
@@ -330,4 +335,4 @@ Definition bp_step (c : pcfg) (st : bpst) (e : bp_event) : bpst :=
                     (bs_closing st) (k :: bs_retrying st)
   | BClosing => mkBp (bs_set st) true (bs_retrying st)
   end.
-Definition bp_run (c : pcfg) (st : bpst) (evs : list bp_event) : bpst := fold_left (bp_step c) evs st.
+Definition bp_run (fx : bool) (c : pcfg) (st : bpst) (evs : list bp_event) : bpst := fold_left (bp_step fx c) evs st.
